@@ -446,3 +446,19 @@ def impl_env():
     env['PYTHONHASHSEED'] = '0'
     env['AIOSMPPLIB_VERIF'] = '1'
     return env
+
+
+def pickle_b64(obj):
+    """objects (messages) stored in replay files so that a replay re-executes the failing operation on the same input"""
+    import base64
+    import pickle
+    try:
+        return base64.b64encode(pickle.dumps(obj)).decode()
+    except Exception:  # noqa: BLE001
+        return None
+
+
+def unpickle_b64(text):
+    import base64
+    import pickle
+    return pickle.loads(base64.b64decode(text))
